@@ -96,7 +96,7 @@ def mk_offsets(hi, not_zero):
         import dask.bag as db
         delim = b"ab"
         # content with delimiters at irregular places, including a trailing one for some sizes
-        unit = b"xxab" + b"yab" + b"zzzzzab" + b"ab"
+        unit = b"x\r\nxab" + b"y\rab" + b"zzz\nzzab" + b"ab"
         content = (unit * (size // len(unit) + 1))[:size]
         with tempfile.TemporaryDirectory() as d:
             fn = os.path.join(d, "f.txt")
@@ -125,14 +125,64 @@ def mk_offsets(hi, not_zero):
             b2 = db.read_text(fn, blocksize=None, linedelimiter="ab").compute(scheduler="sync")
             if list(a) != ref or list(b2) != ref:
                 raise Violation(f"read_text lines differ: size={size} blocksize={bs}: {list(a)[:6]} / {list(b2)[:6]} / ref {ref[:6]}")
+            c3 = db.read_text([fn, fn], files_per_partition=2, linedelimiter="ab").compute(scheduler="sync")
+            if list(c3) != ref + ref:
+                raise Violation(f"read_text(files_per_partition=2) lines differ: size={size}: {list(c3)[:6]} / ref {ref[:6]}")
+            c4 = db.read_text(fn, blocksize=bs, linedelimiter="ab", include_path=True).compute(scheduler="sync")
+            if [x for x, _ in c4] != ref or any(os.path.basename(pth) != "f.txt" for _, pth in c4):
+                raise Violation(f"read_text(include_path=True) lines differ: size={size} blocksize={bs}")
+            # two blocksizes of the same file evaluated in ONE graph (block keys must not collide)
+            bs2 = bs + 3
+            x1 = db.read_text(fn, blocksize=bs, linedelimiter="ab")
+            x2 = db.read_text(fn, blocksize=bs2, linedelimiter="ab")
+            r1, r2 = dask.compute(x1, x2, scheduler="sync")
+            if list(r1) != ref or list(r2) != ref:
+                raise Violation(f"read_text with blocksize {bs} and {bs2} computed together: {len(r1)} and {len(r2)} lines, reference {len(ref)}")
 
     return Obligation(f"read_bytes_offsets[size<={hi},not_zero={not_zero}]", setup, run, e2e=e2e, e2e_every=6,
                       patches=lambda: patched((BC, "int", ShimInt)))
 
 
+def mk_keys(hi):
+    """block task keys: two read_bytes calls on the same file with blocksizes bs1, bs2 may share a key only for identical (offset, length)"""
+    def setup(e):
+        size = e.int("size", 1, hi)
+        bs1 = e.int("bs1", 1, hi)
+        bs2 = e.int("bs2", 1, hi)
+        e.assume(lambda: bs1 < bs2)
+        return size, bs1, bs2
+
+    def run(e, size, bs1, bs2):
+        fs = FakeFS(size)
+        seen = {}
+        out = []
+        for bs in (bs1, bs2):
+            calls = []
+
+            def fake_delayed(f):
+                def rec(of, o, l, delim, dask_key_name=None):
+                    calls.append((dask_key_name, o, l))
+                    return (o, l)
+                return rec
+
+            with patched((BC, "get_fs_token_paths", lambda *a, **k: (fs, "tok", ["p"])), (BC, "delayed", fake_delayed)):
+                BC.read_bytes("p", delimiter=b"\n", blocksize=bs, sample=False)
+            names = [c[0] for c in calls]
+            e.check(len(set(names)) == len(names), "two blocks of one read share a task key")
+            for name, o, l in calls:
+                if name in seen:
+                    e.check(seen[name] == (o, l), f"task key {name} names two different byte ranges {seen[name]} and {(o, l)} (blocksize {bs1} vs {bs2}): "
+                                                  "computed in one graph one block would replace the other")
+                seen[name] = (o, l)
+            out.append(len(calls))
+        return out
+
+    return Obligation(f"block_keys[size<={hi}]", setup, run, patches=lambda: patched((BC, "int", ShimInt)))
+
+
 def obligations(tier):
     hi = 40 if tier == "quick" else 120
-    return [mk_offsets(hi, False), mk_offsets(hi, True)]
+    return [mk_offsets(hi, False), mk_offsets(hi, True), mk_keys(14 if tier == "quick" else 30)]
 
 
 def extra(tier, known, seed):
